@@ -395,6 +395,9 @@ func (t *FnTrans) allocRef(hint string) string {
 	for _, r := range ks {
 		facts = append(facts, not(eq(name, r)))
 	}
+	for _, r := range t.subRefTerms {
+		facts = append(facts, not(eq(name, r)))
+	}
 	t.assume("true", and(facts...), "fresh allocation is distinct from nil and from every reference seen before it")
 	t.localRefs = append(t.localRefs, name)
 	return name
@@ -785,6 +788,30 @@ func (t *FnTrans) havocModifies(item string, pre *Env, st *HeapState, reach stri
 				return and(parts...)
 			}}})
 			t.heapSet(st, comp, srt, sx("store", arr, s.Sub[0].S, na))
+			return
+		}
+		if id != nil && id.Name == "ghostat" && len(n.Args) == 3 {
+			o := pre.eval(n.Args[0])
+			if o.K == VConst {
+				o = scalar(nil, "0")
+			}
+			if o.K == VScalar && o.T != nil {
+				if _, _, isInt := intInfo(o.T); isInt && t.mode == ModeBV {
+					o = scalar(nil, sx("bv2nat", o.S))
+				}
+			}
+			ix, ok := t.toIdx(pre.eval(n.Args[1]))
+			lit, _ := n.Args[2].(*ast.BasicLit)
+			if lit == nil || o.K != VScalar || !ok {
+				panic(&exprError{"bad ghostat() item"})
+			}
+			gname := strings.Trim(lit.Value, "\"")
+			gt := t.W.ghostType(gname)
+			es := t.mode.scalarSort(gt)
+			srt := arraySort("Int", arraySort(t.mode.idxSort(), es))
+			arr := t.heapGet(st, "GA."+gname, srt)
+			fv := t.declare(t.fresh("ghostat."+gname), es)
+			t.heapSet(st, "GA."+gname, srt, sx("store", arr, o.S, sx("store", sx("select", arr, o.S), ix, fv)))
 			return
 		}
 		if id != nil && id.Name == "ghost" && len(n.Args) == 2 {
